@@ -71,7 +71,13 @@ type VM struct {
 
 	// Misc
 	debug bool
+
+	// exits is the number of clauses that are exiting right now, one from within the other.
+	exits int
 }
+
+// maxNestedExits is how many clauses may exit one from within the other, on the Go stack.
+const maxNestedExits = 1000
 
 // Register0 registers a predicate of arity 0.
 func (vm *VM) Register0(name Atom, p Predicate0) {
@@ -242,6 +248,18 @@ func (vm *VM) exec(pc bytecode, vars []Variable, cont Cont, args []Term, astack 
 				return vm.exec(pc, vars, cont, nil, nil, env, cutParent)
 			}, env)
 		case opExit:
+			// cont is likely what's left of the calling clause, which exits likewise in the end, and so forth: the exit of
+			// a deep recursion nests as deep on the Go stack, whose overflow is fatal. Once in a while, have the trampoline
+			// call cont instead.
+			if vm.exits >= maxNestedExits {
+				return Delay(func(context.Context) *Promise {
+					return cont(env)
+				})
+			}
+			vm.exits++
+			defer func() {
+				vm.exits--
+			}()
 			return cont(env)
 		case opCut:
 			// The cut pops cutParent off the stack, so a later cut of the same clause has to cut back to this promise instead.
